@@ -240,7 +240,7 @@ def parse_trace(raw):
             cur = None
         elif tag == "db-begin":
             in_db = True
-            db = {"keys": [], "rows": [], "api": [], "info": None, "integrity": [], "errors": [], "epoch": None}
+            db = {"keys": [], "rows": [], "api": [], "info": None, "integrity": [], "errors": [], "epoch": None, "capi": [], "capi-lookup": [], "capi-epoch": []}
         elif tag == "db-end":
             in_db = False
             if builds and builds[-1]["end"] is not None and builds[-1]["db"] is None:
@@ -267,6 +267,12 @@ def parse_trace(raw):
                 db["epoch"] = kv
             elif kind == "api-foreign":
                 db["foreign"] = kv
+            elif kind in ("capi", "capi-lookup", "capi-epoch"):
+                db.setdefault(kind, []).append(kv)
+            elif kind == "capi-skipped":
+                db["capi-skipped"] = True
+            elif kind in ("capi-open-failed", "capi-fetch-failed"):
+                db.setdefault("capi-failed", []).append(line)
             else:
                 db["errors"].append(line)
         else:
@@ -582,6 +588,45 @@ class CompletionLedger:
             if idx < len(spec["ins"]) and spec["ins"][idx]["src"] >= 0:
                 out.append((spec["ins"][spec["ins"][idx]["src"]]["key"], key))
         return out
+
+
+def check_capi_db(db):
+    """What llb_database_* (get_keys_and_results, and lookup_rule_result per key) returns against what a fresh
+    core::BuildDB returns for the same file (the 'api' rows). -> (violation or None, number of keys sharing a
+    prefix up to their first NUL byte with another key)"""
+    if db is None or db.get("info") is None or db.get("capi-skipped"):
+        return None, 0
+    if db.get("capi-failed"):
+        return "llb_database_* failed on a file core::BuildDB reads: %s" % db["capi-failed"][0], 0
+    norm = lambda k: "" if k == "-" else k
+    want = {}
+    for a in db["api"]:
+        deps = [] if a["deps"] == "-" else [norm(d.rpartition(":")[0]) for d in a["deps"].split(",")]
+        want[norm(a["key"])] = (norm(a["value"]), a["built"], a["computed"], deps)
+    if db["epoch"] and db["epoch"].get("ok") == "1":
+        ce = db["capi-epoch"]
+        if not ce or ce[0]["epoch"] != db["epoch"]["epoch"]:
+            return "llb_database_get_epoch says %s, BuildDB::getCurrentEpoch %s" % (ce, db["epoch"]["epoch"]), 0
+    for kind, what in (("capi", "llb_database_get_keys_and_results"), ("capi-lookup", "llb_database_lookup_rule_result")):
+        got = {}
+        for a in db[kind]:
+            if kind == "capi-lookup" and a.get("found") != "1":
+                return "%s: key %s not found although it has a stored result" % (what, a["key"]), 0
+            deps = [] if a["deps"] == "-" else [norm(d) for d in a["deps"].split(",")]
+            k = norm(a["key"])
+            if k in got:
+                return "%s returned key %s twice (stored keys: %s)" % (what, k, sorted(want)), 0
+            got[k] = (norm(a["value"]), a["built"], a["computed"], deps)
+        if got != want:
+            diff = sorted(k for k in set(got) | set(want) if got.get(k) != want.get(k))
+            return "%s differs from core::BuildDB for key(s) %s: C %s, C++ %s" % (
+                what, diff, [got.get(k) for k in diff[:2]], [want.get(k) for k in diff[:2]]), 0
+    pre = {}
+    for k in want:
+        b = bytes.fromhex(k)
+        if b"\x00" in b:
+            pre.setdefault(b.split(b"\x00")[0], []).append(k)
+    return None, sum(len(v) for v in pre.values() if len(v) > 1)
 
 
 def check_db(db, ledger, iteration=None, strict_computed=True):
